@@ -11,6 +11,7 @@ import (
 	"sort"
 	"strconv"
 	"strings"
+	"unicode/utf8"
 
 	"github.com/cloudwego/thriftgo/fieldmask"
 	"pgregory.net/rapid"
@@ -123,8 +124,12 @@ func (g *pgen) strs(label string) []string {
 			if g.k[fStrKeyJSON] {
 				excl(fStrKeyJSON)
 			} else {
-				out[i] = rapid.SampledFrom(oddStrPool).Draw(g.rt, label)
-				continue
+				s := rapid.SampledFrom(oddStrPool).Draw(g.rt, label)
+				if utf8.ValidString(s) || !g.k[fStrKeyUTF8] {
+					out[i] = s
+					continue
+				}
+				excl(fStrKeyUTF8)
 			}
 		}
 		out[i] = rapid.SampledFrom(strPool).Draw(g.rt, label)
@@ -855,6 +860,8 @@ func knownPathShape(p string, k knownSet, negNames ...string) string {
 				}
 			} else if k[fStrKeyJSON] && !json.Valid([]byte(strconv.Quote(v))) {
 				return fStrKeyJSON
+			} else if k[fStrKeyUTF8] && !utf8.ValidString(v) {
+				return fStrKeyUTF8
 			}
 			pos = i
 			prevDot = false
